@@ -42,7 +42,8 @@ def sanitize (s : String) : String :=
   String.ofList (s.toList.map (fun ch => if ch.toNat > 32 && ch.toNat < 127 && ch != '|' then ch else '_'))
 
 /- `p` / `caps` / `sgen` / `fault` are the state of the PHYSICAL machine (`Parse/Phys.lean`): consume, eof, produce, flush and error
-   run on it (`DRun.mp` / `DRun.setM`); clone, `parser/insert` and `parser/state` use the logical model + capacity overlay. -/
+   run on it (`DRun.mp` / `DRun.setM`); as do clone, `parser/insert` and `parser/state` (`cloneM`, `insertM`, `stateDelimsM`): every parser operation of a run goes through the
+   machine; a failed memory check prints PHYS-FAULT into the `i` dump, which the harness compares. -/
 structure DRun where
   p : Parser
   caps : Caps
@@ -176,11 +177,17 @@ def runOp (scan : Scan) (r : DRun) (op : Char) (n : Nat) : DRun :=
   | 'u' => opFeed scan r n "c"
   | 'b' => opFeed scan r n "b"
   | 'j' => opFeed scan r n "j"
-  | 'k' => { r with p := clone r.p, caps := cloneK r.p, sgen := r.sgen + 1 }
+  | 'k' => r.setM (cloneM r.mp)
   | 'K' => r
   | 's' => trStatus r "s"
   | 'w' => trWhere r "w"
-  | 't' => trState { r with caps := stateK r.caps r.p }
+  | 't' =>
+    -- `parser/state`: the delimiters come from the physical run of parser_state_delimiters (pushed behind the scratch contents)
+    let (ds, m) := stateDelimsM r.mp
+    let r := r.setM m
+    let fr := r.p.states.reverse
+    let per := String.join (fr.map (fun s => s!":{frameType s},{s.line},{s.column}"))
+    { r with tr := r.tr.push (s!"@{r.label}:t={fr.length}:" ++ hexOfB ds ++ per) }
   | 'i' => trInternals r
   | 'h' => { r with tr := r.tr.push (if hasMore r.p then "h=1" else "h=0") }
   | 'p' => if hasMore r.p then produce1 r false else { r with tr := r.tr.push "p=nil" }
@@ -203,10 +210,9 @@ def runOp (scan : Scan) (r : DRun) (op : Char) (n : Nat) : DRun :=
     let r := match r.p.states with
       | top :: _ => if top.consumer == Consumer.tokenchar && (checkDead r.p).isNone then logScan scan r 32 else r
       | [] => r
-    let caps := insertK scan r.caps r.p v vs
-    match insert scan r.p v vs with
-    | (p, some msg) => let r := trPanic { r with p := p, caps := caps } "I" msg; if status r.p == .error then handleErrorD r else r
-    | (p, none) => let r := { r with p := p, caps := caps }; if status r.p == .error then handleErrorD r else r
+    match insertM scan r.mp v vs with
+    | (m, some msg) => let r := trPanic (r.setM m) "I" msg; if status r.p == .error then handleErrorD r else r
+    | (m, none) => let r := r.setM m; if status r.p == .error then handleErrorD r else r
   | 'L' =>
     match setWhere r.p (some (Int.ofNat n)) none with
     | .error msg => trPanic r "L" msg
